@@ -403,7 +403,7 @@ func TestVerif_C15_Race(t *testing.T) {
 				a := &vfC15Actor{id: i, req: make(chan string), grant: make(chan struct{}), done: make(chan struct{})}
 				a.node = w.NewNode()
 				if patient {
-					a.node.bc.configRetryTimeout = time.Second
+					a.node.bc.configRetryTimeout = 20 * time.Second // never meant to expire: the scheduler lets the awaited node finish first
 				} else {
 					a.node.bc.configRetryTimeout = 1 // nanosecond: a version mismatch is acted upon at once
 				}
